@@ -8,7 +8,7 @@ independent Go visibility/import oracle.
 """
 import os
 
-THEOREMS = ["IstioModel.C07.HostTheorems", "IstioModel.C07.VisTheorems", "IstioModel.C07.VSTheorems", "IstioModel.C07.ScopeTheorems",
+THEOREMS = ["IstioModel.C07.HostTheorems", "IstioModel.C07.VisTheorems", "IstioModel.C07.VSTheorems", "IstioModel.C07.ScopeTheorems", "IstioModel.C07.PortsTheorems",
             "IstioModel.C07.RuleTheorems"]
 STREAMS = [("host", 3000, 60000), ("vis", 1500, 30000), ("scope", 4000, 60000)]
 
@@ -92,14 +92,15 @@ def run(ctx):
                 "0-4 DestinationRules (wildcard hosts, exportTo forms, workloadSelector), 0-3 Sidecars (root namespace, workloadSelector, "
                 "0-3 egress listeners, port-bound / HTTP_PROXY, host forms ns/h, */h, ./h, ns/*, */*, wildcards, ~ns/h, ~/h, ~./h, ~*/h, illegal), "
                 "flags UnifiedSidecarScoping / SidecarPickBestServiceNamespace / EnhancedDestinationRuleMerge on and off; one SidecarScope "
-                "query per namespace (+ a foreign one), gateway scopes, and the CDS output of one proxy. "
+                "query per namespace (+ a foreign one), gateway scopes, and for one sidecar proxy the CDS output (incl. subset clusters) and the EDS answers for "
+                "every hostname of the mesh, for one router proxy the CDS output; ExternalName (alias) services with chains and loops, mirror/tls destinations, TCP ports, VIPs. "
                 "distinct = hash of (ops, implementation outputs); non-trivial = at least one op")
     ctx.assumptions = [
         "hostnames and namespaces are ASCII (Go compares bytes, the model compares characters)",
         "hostnames in VirtualService / DestinationRule are fully qualified (ResolveShortnameToFQDN is the identity on names containing a dot)",
         "services have pairwise distinct (creationTime, name, namespace) sort keys (SortServicesByCreationTime is then a total order; multi-host ServiceEntry ties belong to C17)",
         "at most one Kubernetes service per hostname in generated meshes (the oracle's Kubernetes tie-break clause names a single expected namespace); pickBestVisibleNamespace itself is order independent for all inputs (pickBest_order_independent, /repo d30d8f4)",
-        "Attributes.Aliases is an input (resolveServiceAliases is not modelled); all workloadSelectors of DestinationRules are equal",
+        "ExternalName services have pairwise distinct hostnames (two alias services on one hostname: 'behavior is undefined' in resolveServiceAliases)",
         "the proxy namespace is not one of the exportTo keywords '.', '~' (ValidNs) and no VirtualService lives in a namespace named '*'",
         "completeness is stated for export sets in which '~' does not stand next to a namespace or '.' (ExportWF; validation enforces it for ServiceEntry; witness exported_mixed_none_witness otherwise)",
     ]
@@ -163,15 +164,18 @@ MANIFEST = {
                    "SidecarScope.services is a mesh service Visible to the proxy namespace and Imported by the scope) ; scope_complete / default_scope_complete "
                    "(visible + matched by a port-unrestricted egress host => delivered or displaced by a visible same-hostname winner); exact_fastpath_parity; "
                    "vs_export_sound, dr_export_sound (a rule not exported to the proxy namespace is never selected); gateway_scope_sound; "
-                   "pickBest_order_independent. Two defects found by the proof obligations and reproduced on the real code were repaired in /repo "
-                   "(F7 VirtualService-destination leak, F10 exact-host fast path dropping a service shadowed by a hidden duplicate); the old behaviours are "
-                   "kept as theorems scope_sound_fails_unfixed / exact_path_incomplete_witness_unfixed and as corpus cases. The model is tied to /repo on every run "
+                   "pickBest_order_independent; scope_alias_sound (delivered alias hostnames stand for exported ExternalName services), scope_complete_unique_ports, "
+                   "scope_ports_sound, listener_services_sound, vs_select_sound. Three defects found by the proof obligations / review and reproduced on the real code were "
+                   "repaired in /repo (F7 VirtualService-destination leak, F10 exact-host fast path dropping a service shadowed by a hidden duplicate, F11 aliases of "
+                   "ExternalName services not exported to the proxy namespace); the old behaviours are kept as theorems (scope_sound_fails_unfixed, "
+                   "exact_path_incomplete_witness_unfixed, alias_leak_witness_unfixed) and as corpus cases. The model is tied to /repo on every run "
                    "by a line-by-line differential against a real PushContext / SidecarScope / CDS generator, and an independent Go oracle states the property on the real output."),
     "level_note": ("Trusted: Lean kernel + {propext, Classical.choice, Quot.sound}; the hand-written model (differential testing on ~8500 cases quick / 150000 thorough: "
-                   "host pairs, visibility queries, SidecarScope services / per-listener services and VirtualServices / DestinationRules, CDS cluster names); "
+                   "host pairs, visibility queries, SidecarScope services / per-listener services and VirtualServices / DestinationRules with subsets, CDS cluster names of sidecar and router proxies, EDS answers); "
                    "pilot/pkg/model/zz_verif_c07.go; the harness environment construction. Not modelled: initServiceRegistry loop structure (closed-form index model), "
-                   "resolveServiceAliases, short-name resolution, delegate VirtualService merging, traffic-policy/subset content of consolidated DestinationRules, "
-                   "RDS/LDS generation (only observed by the oracle: route virtual hosts within scope), FilterGatewayClusterConfig gateway path, EDS content. "
+                   "short-name resolution, delegate VirtualService merging, traffic-policy content of consolidated DestinationRules, "
+                   "RDS/LDS generation (only observed by the oracle: route virtual hosts/domains, listener addresses), the FilterGatewayClusterConfig gateway path (oracle only). "
+                   "Mesh default defaultDestinationRuleExportTo is modelled as the code reads it (only . and * honoured; dr_default_namespace_list_witness). "
                    "List-level fast-path parity is false (witnesses fastpath_list_parity_fails_witness, fastpath_duplicate_key_witness); legacy DestinationRule merge "
                    "(flag off) violates export soundness (dr_export_legacy_merge_witness)."),
     "technique": "Lean 4 theorems over an exact model of visibility / sidecar scoping + differential correspondence with the real PushContext, SidecarScope and CDS + independent property oracle",
